@@ -48,7 +48,7 @@ class NthRoot(base.ParameterizedUnaryExpression):
     def _to_string(
         self: NthRoot
     ) -> str:
-        return f"NthPower({self._inner}, n={self.n})"
+        return f"NthRoot({self._inner}, n={self.n})"
 
     ## Evaluation ##
 
